@@ -12,6 +12,7 @@ Decision procedure (DESIGN §3.4):
 from __future__ import annotations
 
 import argparse
+import contextlib
 import hashlib
 import importlib
 import json
@@ -80,8 +81,8 @@ def matches(finding, pid, sig):
 
 
 def write_replay(pid, payload) -> Path:
-    d = VERIF / "replays"
-    d.mkdir(exist_ok=True)
+    d = Path(os.environ.get("VERIF_REPLAY_DIR", str(VERIF / "replays")))
+    d.mkdir(exist_ok=True, parents=True)
     blob = json.dumps(payload, sort_keys=True, default=str)
     h = hashlib.sha256(blob.encode()).hexdigest()[:12]
     p = d / f"{pid}-{h}.json"
@@ -145,10 +146,11 @@ def main(argv=None):
     res = Result()
     crashed = None
     try:
-        mod.run(res, tier=args.tier, seed=seed, widen=False)
-        if (not proof["ok"] or res.model_mismatches) and not res.violations:
-            log(f"[{pid}] proof or correspondence broken and no failing input yet: widening the search")
-            mod.run(res, tier="thorough", seed=seed + 1, widen=True)
+        with contextlib.redirect_stdout(sys.stderr):   # the library prints progress messages on stdout
+            mod.run(res, tier=args.tier, seed=seed, widen=False)
+            if (not proof["ok"] or res.model_mismatches) and not res.violations:
+                log(f"[{pid}] proof or correspondence broken and no failing input yet: widening the search")
+                mod.run(res, tier="thorough", seed=seed + 1, widen=True)
     except Exception as e:  # the harness itself failed: that is a broken check, reported as such
         crashed = traceback.format_exc()
         log(crashed)
@@ -235,8 +237,8 @@ def main(argv=None):
         wall_s=round(time.time() - t0, 2),
         violations=len(new_violations) + (1 if exit_code and not new_violations else 0),
     )
-    evp = VERIF / "evidence" / f"{pid}.json"
-    evp.parent.mkdir(exist_ok=True)
+    evp = Path(os.environ.get("VERIF_EVIDENCE_DIR", str(VERIF / "evidence"))) / f"{pid}.json"
+    evp.parent.mkdir(exist_ok=True, parents=True)
     evp.write_text(json.dumps(ev, indent=1, default=str))
     bad = validate_evidence(evp)
     if bad:
